@@ -355,6 +355,11 @@ func (bindings *BindStms) compileWildcard(binding *BindStm,
 	ref := binding.Exp.(*RefExp)
 	var errs ErrorList
 	if ref.Kind == KindSelf && ref.Id == "" {
+		if pipeline == nil {
+			// The top-level call is not in a pipeline.
+			return global.err(binding,
+				"ScopeNameError: 'self' cannot be used outside of a pipeline")
+		}
 		fakeBindings := make([]BindStm, len(pipeline.InParams.List))
 		for i, m := range pipeline.InParams.List {
 			if _, ok := params.GetParam(m.Id); !ok {
